@@ -8,10 +8,18 @@ dump colour/key/value of the real nodes obtained through the overlay, with the p
 
 def _tag(line, out):
     w = line.split(" ", 1)[0]
-    if w in ("get",) and out.startswith("none"):
+    if w == "get" and out.startswith("none"):
         return "get:absent"
+    if w == "rem":
+        return "rem:" + out.split(" ", 1)[0]
     if w in ("travfrom", "rtravfrom", "trav", "rtrav") and out.startswith("-"):
         return w + ":nothing-visited"
+    if w == "dump":
+        n = out.count("(")
+        for lim in (0, 1, 7, 31, 127):
+            if n <= lim:
+                return "dump:size<=%d" % lim
+        return "dump:size>=128"
     return None
 
 
@@ -20,6 +28,13 @@ def _strip_count(out):
     if i >= 0 and out[i + 2:].isdigit() and (i == 0 or out[i - 1] == " "):
         return out[:i].rstrip()
     return out
+
+
+def _behaviour_only(out):
+    """pass A: compare-call counts stripped, node dumps blanked (both are compared in pass B)"""
+    if out.endswith("parents=ok") or out.endswith("parents=BAD"):
+        return "dump " + out.rsplit(" ", 1)[1]
+    return _strip_count(out)
 
 
 def run(ctx):
@@ -36,15 +51,17 @@ def run(ctx):
     ctx.harness("./cmd/c06", overlay={"collection/redblack/verif_dump.go": "redblack_verif.go"})
     common = dict(area="rbtree", driver="drv_c06", stateful=True, trivial=lambda l, o: l in ("inv",),
                   model_only=lambda l: l.startswith("dump"))
-    # pass 1: behaviour and shape only (compare-call counts stripped), so that a behavioural difference is reported
-    # as such and not as the count difference that usually precedes it in the same history
-    ctx.diff(n={"quick": 400000, "thorough": 2000000}, canon=_strip_count, tagger=_tag,
-             theorem="C06.inorder_run / remove_inorder / get_first / first_last / traverse_spec / traverseFrom_spec / "
-                     "run_inv are theorems about the model RB.Tree; the implementation differs from the model on "
-                     "this history",
-             what="results and node shape/colours of redblack.Tree vs the Lean model (compare counts ignored)", **common)
-    # pass 2: everything, including the number of calls made to the compare function per operation
+    # pass A: observable behaviour only (compare-call counts stripped, node dumps reduced to the parent-link bit), so
+    # that a behavioural difference is minimised and reported as such, with its concrete failing history, and is not
+    # crowded out by the count/shape differences that usually precede it in the same history
+    ctx.diff(n={"quick": 500000, "thorough": 3000000}, canon=_behaviour_only, tagger=_tag,
+             theorem="C06.inorder_run / remove_inorder / queries_run / traverseFrom_run / count_run / run_inv are "
+                     "theorems about the model RB.Tree; the implementation differs from the model on this history",
+             what="results of redblack.Tree vs the Lean model (compare counts and node shape ignored in this pass)",
+             **common)
+    # pass B: everything: results, number of calls made to the compare function per operation, node shape and colours
     ctx.diff(n={"quick": 1000000, "thorough": 16000000},
-             theorem="C06.compares_find / compares_insert / compares_remove bound the model's compare counts; the "
-                     "implementation's count (or result) differs from the model on this history",
+             theorem="C06.compares_find / compares_insert / compares_remove / height_run bound the model's compare "
+                     "counts and height; the implementation's count, shape (or result) differs from the model on "
+                     "this history",
              what="results, compare-call counts and node shape/colours of redblack.Tree vs the Lean model", **common)
